@@ -76,6 +76,12 @@ class G:
             if self.cls in ("reuse", "mix") and n > 1 and r.random() < 0.15:
                 for c in d["children"]:
                     c["transient"] = 1
+            elif self.cls in ("fds", "ready", "reuse") and n > 1 and r.random() < 0.2:
+                # a transient child in front of plain siblings: its removal shifts the siblings' sub-ids at the
+                # re-registration that follows (their kernel keys must follow)
+                for c in d["children"][:r.choice([1, 1, n - 1])]:
+                    c["transient"] = 1
+                    c["interest"], c["mode"] = "r", r.choice(["level", "level", "oneshot"])
             if r.random() < 0.25:
                 d["held"] = 1
         if kind == "ping" and self.cls == "life" and r.random() < 0.5:
